@@ -1,9 +1,9 @@
 """C06 - signature verification accepts exactly valid, ordered, in-set signatures."""
-from checks import vaacommon, proccommon
+from checks import vaacommon, proccommon, c19
 
 
 def run(ctx):
-    ctx.prove(families=("vaa", "processor"))
+    ctx.prove(families=("vaa", "processor", "explorer"))
     vaacommon.run_vaa(ctx, "c06", ("ver",))
     ctx.cov["rule"] = ("guardian lists of length 0..255 (quick: 11 sizes; thorough: every size), with and without repeated addresses; a valid "
                        "ascending signer subset and 20+ single-step corruptions (swap, duplicate, re-index, index 255 / = len, outsider, other member, "
@@ -17,3 +17,14 @@ def run(ctx):
     proccommon.run_processor(ctx, "C06", "")
     ctx.cov["rule"] = rule + " | processor call site: " + ctx.cov["rule"][:400]
     ctx.cov["generator_distribution"] = {"vaa": dist, "processor": ctx.cov.get("generator_distribution")}
+    # the call site in the explorer (anchor explorer-backend/processor/vaa_gossip_consumer.go): what verifyVAA / Push let through must be
+    # a signature list VerifySignatures accepts against the named set - clause gate-accepts-invalid-signature-list (all other clauses
+    # of the explorer family are C19's); the model comparison applies to every gate line
+    rule, dist = ctx.cov["rule"], ctx.cov.get("generator_distribution")
+    gate = c19.run_gate_for_c06(ctx)
+    ctx.cov["rule"] = rule + (" | explorer call site: verifyVAA (module-cache node version) directly and through Push on fresh consumers: 10 set sizes x "
+                              "17 corruption kinds, and a valid quorum followed by 1..3 surplus bad signatures (outsider key, repeated index, lower "
+                              "index, index >= set size, random/zero bytes) for every set size")
+    dist["explorer_gate"] = gate
+    ctx.cov["generator_distribution"] = dist
+    ctx.cov["trusted_base"] += ["harness/explorer/push_verif_test.go (gate cases) and Whv/Driver/Explorer.lean for the explorer call site"]
